@@ -41,11 +41,13 @@ RULE = ('directed prefix (time -1 as first read = regression of the repaired cac
         'unbalanced pop, time_dependent off) + all sequences of length <=2 (<=3 thorough) over a 15-statement alphabet '
         '+ random histories of <=30 statements (time jumps forward/backward/repeated/negative/huge, reads, inspections, '
         'equal times arriving as new int objects (values > 256 set twice, += d then -= d) between reads of '
-        'generators with memory, forced values, nested contexts left normally / by StopIteration / by KeyError, push/pop, assignments, new '
+        'generators with memory, generators whose k-th call raises (StopIteration swallowed by an enclosing context, '
+        'KeyError ending the history) followed by more reads at the same time, forced values, nested contexts left normally / by StopIteration / by KeyError, push/pop, assignments, new '
         'instances) over 1-4 parameters (Dynamic and Number), time-dependent generators with 3 names x 3 seeds x 3 '
         'distributions, counters and seeded streams. non-trivial = at least one oracle conclusion checked and one '
         'value read from a time-dependent generator; distinct = distinct canonical case')
-COVERAGE_TARGETS = ['read:td', 'read:st', 'read:const',
+COVERAGE_TARGETS = ['read:td', 'read:st', 'read:const', 'read:raised:StopIteration', 'read:raised:KeyError',
+                    'force:raised:StopIteration',
                     'inspect:td', 'inspect:st', 'force:td', 'force:st', 'enter', 'exit', 'exit:raised:KeyError',
                     'exit:raised:IndexError', 'push', 'pop', 'pop:raised:IndexError', 'raise:raised:StopIteration',
                     'raise:raised:KeyError', 'newInst', 'assign', 'setTime', 'advance', 'setStep', 'setUntil']
@@ -58,15 +60,39 @@ class _Malformed(Exception):
     skipped by an exception): both sides treat it as an exception that ends the history"""
 
 
+_EXC = {'StopIteration': StopIteration, 'KeyError': KeyError}
+
+
 class _Counter:
-    """a generator that ignores time: k-th call returns k"""
-    def __init__(self, sid):
+    """a generator that ignores time: k-th call returns k; optionally its n-th call (0-based) raises"""
+    def __init__(self, sid, fail=None):
         self.sid = sid
         self.k = 0
+        self.fail = fail
 
     def __call__(self):
         self.k += 1
+        if self.fail and self.fail[0] == self.k - 1:
+            raise _EXC[self.fail[1]]('generator fault')
         return self.k
+
+
+_FLAKY = {}
+
+
+def _flaky(cls):
+    """subclass of a numbergen class whose n-th call (0-based) raises after doing its work
+    (so that the position in a random stream stays in step with the number of calls)"""
+    if cls not in _FLAKY:
+        def __call__(self):
+            n = self._calls
+            self._calls = n + 1
+            v = cls.__call__(self)
+            if self._fail and self._fail[0] == n:
+                raise _EXC[self._fail[1]]('generator fault')
+            return v
+        _FLAKY[cls] = type('Flaky' + cls.__name__, (cls,), {'__call__': __call__, '_calls': 0, '_fail': None})
+    return _FLAKY[cls]
 
 
 def _exc_name(e):
@@ -143,13 +169,16 @@ class _Run:
         k = src['fresh']
         if k[0] == 'td' and not self.case['dynTD']:
             raise _Malformed()      # numbergen refuses: Dynamic parameters are ignoring time
+        fail = src.get('fail')
         if k[0] == 'td':
             cls = getattr(self.ng, _DIST.get(k[1][:1], 'UniformRandom'))
-            g = cls(name=k[1], seed=k[2], time_dependent=True)
+            g = (_flaky(cls) if fail else cls)(name=k[1], seed=k[2], time_dependent=True)
         elif k[1] % 2 == 0:
-            g = _Counter(k[1])
+            g = _Counter(k[1], fail)
         else:
-            g = self.ng.UniformRandom(seed=k[1], time_dependent=False)
+            g = (_flaky(self.ng.UniformRandom) if fail else self.ng.UniformRandom)(seed=k[1], time_dependent=False)
+        if fail and not isinstance(g, _Counter):
+            g._calls, g._fail = 0, list(fail)
         self.reg.append(g)
         return g
 
@@ -228,9 +257,10 @@ class _Run:
         except _Malformed:
             self.ev(tag, {'raised': 'MALFORMED'}, None, ())
             raise
+        faults = (StopIteration, KeyError) if o in ('read', 'force') else ()
         try:
             v = call()
-        except (ValueError, IndexError) as e:
+        except (ValueError, IndexError) + faults as e:
             self.ev(tag, {'raised': type(e).__name__}, touched, gens)
             raise
         res = ['u']
@@ -385,6 +415,21 @@ def _directed():
                     {'op': 'advance', 'd': 1}, {'op': 'advance', 'd': -1}, R(0, 0), {'op': 'pop', 'i': 0}, T(2 ** 40), R(0, 0),
                     R(1, 0)])
     yield _mk([_p('dynamic', _st(2))], [T(257), R(-1, 0), T(257), R(-1, 0), T(256), R(-1, 0), T(256), R(-1, 0)])
+    # a generator that raises once while a value is being produced (caught by the enclosing context /
+    # ending the history): value and time stamp of the cache must stay as they were
+    def flaky(n, exc='StopIteration', name='g', seed=3):
+        return dict(_td(name, seed), fail=[n, exc])
+    fl = [_p('dynamic', flaky(1)), _p('dynamic', dict(_st(0), fail=[1, 'StopIteration'])),
+          _p('number', dict(_st(1), fail=[2, 'StopIteration']))]
+    yield _mk(fl, [NEW, NEW, T(0), R(0, 0), R(1, 0), T(1), CTX(R(0, 0)), R(0, 0), I(0, 0), R(1, 0), R(0, 0), T(0), R(0, 0),
+                   T(1), R(0, 0), R(1, 0)])
+    yield _mk(fl, [NEW, T(0), R(0, 1), R(0, 2), T(5), CTX(R(0, 1)), I(0, 1), R(0, 1), R(0, 1), R(0, 2), T(6), CTX(R(0, 2)),
+                   R(0, 2), I(0, 2), CTX(T(7), CTX(F(0, 0)), R(0, 0), I(0, 0)), R(0, 0)])
+    yield _mk([_p('dynamic', flaky(0)), _p('dynamic', flaky(2, 'KeyError', 'n', 0))],
+              [CTX(R(-1, 0)), I(-1, 0), R(-1, 0), NEW, T(3), R(0, 1), T(4), R(0, 1), T(9), CTX(T(8), R(0, 1), T(2)), I(0, 1)])
+    yield _mk([_p('dynamic', flaky(1, 'KeyError'))], [T(0), R(-1, 0), T(1), R(-1, 0), R(-1, 0)])
+    yield _mk([_p('dynamic', dict(_st(2), fail=[0, 'StopIteration']))], [CTX(R(-1, 0)), R(-1, 0), R(-1, 0), T(1),
+                                                                       R(-1, 0)], dynTD=False)
     # forward / backward / repeated, two instances, class-level
     yield _mk(two, [NEW, NEW] + [x for t in (0, 1, 2, 1, 0, 5, 0, -2, 3, -2, 2, 2 ** 32 + 1, 1)
                                  for x in (T(t), R(0, 0), R(1, 0), R(-1, 0), R(0, 1), R(0, 1))])
@@ -455,9 +500,10 @@ def _random_case(rng):
             return {'existing': rng.randrange(ngens)}
         if r < 0.25:
             return {'const': rng.randint(-3, 9)}
-        if dynTD and r < 0.8:
-            return _td(rng.choice(names), rng.choice(seeds))
-        return _st(rng.randint(0, 3))
+        g = _td(rng.choice(names), rng.choice(seeds)) if dynTD and r < 0.8 else _st(rng.randint(0, 3))
+        if rng.random() < 0.2:
+            g = dict(g, fail=[rng.randint(0, 4), 'StopIteration' if rng.random() < 0.8 else 'KeyError'])
+        return g
 
     params = [_p(rng.choice(['dynamic', 'number']), src(True)) for _ in range(nparams)]
     st = {'ninst': 0, 'ngens': sum('fresh' in p['default'] for p in params), 'budget': rng.randint(3, 30)}
@@ -504,6 +550,10 @@ def _random_case(rng):
             elif r < 0.27:
                 d = rng.randint(-5, 5)
                 ops.append({'op': 'advance', 'd': d if sentinel_ok else 2 * d})   # parity keeps -1 rare, not impossible
+            elif r < 0.3 and depth < 3:
+                # a read that may fail, caught by a context (contexts swallow StopIteration), then the same read again
+                rd = R(tgt(), rng.randrange(nparams))
+                ops.extend([CTX(dict(rd)), dict(rd)])
             elif r < 0.55:
                 ops.append(R(tgt(), rng.randrange(nparams)))
                 if rng.random() < 0.3:
